@@ -36,7 +36,7 @@ def build(cfg):
     zng = make_nan_tools()
 
     def extra(params):
-        if not inj or inj["origin"] in ("update", "update_entry"):
+        if not inj or inj["origin"] in ("update", "update_entry", "state_only"):
             return 0.0
         a = params.eq_params["a"] if inj["origin"] in ("loss", "grad_eq") else params.nn_params.scale
         beyond = (a - inj["thr"]) * inj["sign"] > 0
@@ -100,6 +100,18 @@ def build(cfg):
         opt = optax.adam(lr)
     else:
         opt = optax.chain(optax.clip(1.0), optax.scale_by_adam(), optax.scale_by_schedule(optax.piecewise_constant_schedule(-lr, {3: 0.5})))
+    if inj and inj["origin"] == "state_only":
+        # a NaN that lives in the optimizer state only (a bookkeeping leaf no update depends on): no parameter is ever NaN,
+        # training must run to the end
+        k0 = inj["k"]
+
+        def init_s(params):
+            return (jnp.zeros((), dtype=jnp.int32), jnp.zeros(()))
+
+        def update_s(updates, state, params=None):
+            cnt, junk = state
+            return updates, (cnt + 1, jnp.where(cnt == k0, jnp.nan, junk))
+        opt = optax.chain(opt, optax.GradientTransformation(init_s, update_s))
     if inj and inj["origin"] in ("update", "update_entry"):
         k = inj["k"]
         one_entry = inj["origin"] == "update_entry"       # NaN in a single entry of a multi-entry leaf, every other leaf finite
